@@ -255,6 +255,21 @@ func vhGCWorld(size int, exact bool) *vhGCSetup {
 			n.entry = 0
 		}
 	}
+	// push order: an untagged child of the present index I may have been pushed by digest
+	// AFTER I (or its tag deleted after I was pushed): it then has an untagged top-level
+	// entry of its own besides being a child of I
+	if in := w.g.by["I"]; in.stored && in.entry > 0 {
+		for _, cn := range in.refs {
+			c, ok := w.g.by[cn]
+			if !ok || !c.stored || c.entry != 1 || c.mt == "" {
+				continue
+			}
+			if vh.Bool("late_" + c.name) {
+				_ = w.repo.IndexInsert(types.Descriptor{MediaType: c.mt, Digest: c.dig, Size: int64(len(c.body))})
+				vh.Cover("C05.child-with-own-untagged-entry")
+			}
+		}
+	}
 	// what the index really holds at top level (a response insertion moves the
 	// manifests it lists to the child list, exactly as referrerAdd does)
 	idxNow := vhIndexOf(w.repo)
